@@ -150,6 +150,22 @@ class SourceDataWrapper(ABC):
             A structured numpy array, containing the required chunks of all the relevant data sets from the source data.
         """
 
+        idx = self._get_chunk_slice(start, stop)
+        n_rows = idx.stop - idx.start
+
+        chunk = np.zeros(n_rows, dtype=self._dtype)
+        for key, loc in self._mapping.items():
+            chunk[key] = self._data_source[loc][idx]
+
+        return chunk
+
+    def _get_chunk_slice(self, start: int, stop: Union[int, None]) -> slice:
+        """Check the requested range of rows and express it as a slice of the source data.
+
+        The start and stop rows are counted from the first row to be loaded ('from_idx'), not from the first row
+        of the source data.
+        """
+
         if start < 0:
             raise ValueError("Start row cannot be negative")
 
@@ -164,14 +180,7 @@ class SourceDataWrapper(ABC):
         if stop < start:
             raise ValueError(f"Stop row cannot be smaller than start row; got {stop} and {start}")
 
-        idx = slice(self._from_idx + start, self._from_idx + stop)
-        n_rows = stop - start
-
-        chunk = np.zeros(n_rows, dtype=self._dtype)
-        for key, loc in self._mapping.items():
-            chunk[key] = self._data_source[loc][idx]
-
-        return chunk
+        return slice(self._from_idx + start, self._from_idx + stop)
 
     def make_chunked_generator(self, chunk_rows: Union[int, None]) -> Generator:
         """Define a generator yielding consecutive chunks of input data with the specified size.
@@ -330,7 +339,7 @@ class NumpyDataWrapper(SourceDataWrapper):
         """
 
         if self._dtype == self._data_source.dtype:
-            return self._data_source[start:stop]
+            return self._data_source[self._get_chunk_slice(start, stop)]
 
         return super().load_chunk(start, stop)
 
